@@ -212,6 +212,8 @@ impl StorageEngine {
         }
         
         let stored_value = StoredValue::new(Value::String(value));
+        // the expired entry being replaced may have left an index entry: the new value has no TTL
+        shard_guard.expiring_keys.remove(&key);
         shard_guard.data.insert(key.clone(), stored_value);
         shard_guard.mark_modified(&key);
         
@@ -269,6 +271,9 @@ impl StorageEngine {
         // Track expiration if needed
         if let Some(expires_at) = stored_value.metadata.expires_at {
             shard_guard.expiring_keys.insert(key.clone(), expires_at);
+        } else {
+            // the value being replaced may have had a TTL: the new one has none
+            shard_guard.expiring_keys.remove(&key);
         }
         
         // CRITICAL FIX: Mark as modified BEFORE data change to fix WATCH race condition
@@ -827,6 +832,7 @@ impl StorageEngine {
                 
                 if is_empty {
                     shard_guard.data.remove(key);
+                    shard_guard.expiring_keys.remove(key);
                 } 
                 // NO else branch with touch() - no access time tracking overhead
             }
@@ -1115,6 +1121,7 @@ impl StorageEngine {
                     
                     if is_empty {
                         shard_guard.data.remove(key);
+                        shard_guard.expiring_keys.remove(key);
                     }
                     
                     Ok(element)
@@ -1143,6 +1150,7 @@ impl StorageEngine {
                     
                     if is_empty {
                         shard_guard.data.remove(key);
+                        shard_guard.expiring_keys.remove(key);
                     }
                     
                     Ok(element)
@@ -1286,6 +1294,7 @@ impl StorageEngine {
                     
                     if is_empty {
                         shard_guard.data.remove(&key);
+                        shard_guard.expiring_keys.remove(&key);
                     }
                     
                     Ok(())
@@ -1354,6 +1363,7 @@ impl StorageEngine {
                     
                     if is_empty {
                         shard_guard.data.remove(&key);
+                        shard_guard.expiring_keys.remove(&key);
                     }
                     
                     Ok(removed)
@@ -1426,6 +1436,7 @@ impl StorageEngine {
                     if is_empty {
                         shard_guard.mark_modified(key); // Mark before removal
                         shard_guard.data.remove(key);
+                        shard_guard.expiring_keys.remove(key);
                     } else if removed > 0 {
                         shard_guard.mark_modified(key); // Now safe to call
                     }
@@ -1684,6 +1695,7 @@ impl StorageEngine {
                     
                     if is_empty {
                         shard_guard.data.remove(&key);
+                        shard_guard.expiring_keys.remove(&key);
                     }
                     
                     Ok(result)
@@ -1796,6 +1808,7 @@ impl StorageEngine {
                     
                     if hash.is_empty() {
                         shard_guard.data.remove(&key);
+                        shard_guard.expiring_keys.remove(&key);
                     } 
                     // NO else branch with touch() - no access time tracking overhead
                     shard_guard.mark_modified(&key);
@@ -2078,6 +2091,12 @@ impl StorageEngine {
             // Same shard - simple case
             let mut shard_guard = old_shard.write().unwrap();
             if let Some(stored_value) = shard_guard.data.remove(old_key) {
+                // the TTL travels with the value: move the index entry too
+                shard_guard.expiring_keys.remove(old_key);
+                match stored_value.metadata.expires_at {
+                    Some(expires_at) => { shard_guard.expiring_keys.insert(new_key.clone(), expires_at); }
+                    None => { shard_guard.expiring_keys.remove(&new_key); }
+                }
                 shard_guard.data.insert(new_key.clone(), stored_value);
                 shard_guard.mark_modified(old_key);
                 shard_guard.mark_modified(&new_key);
@@ -2104,6 +2123,12 @@ impl StorageEngine {
             
             // Move the value between shards
             if let Some(stored_value) = old_guard.data.remove(old_key) {
+                // the TTL travels with the value: move the index entry too
+                old_guard.expiring_keys.remove(old_key);
+                match stored_value.metadata.expires_at {
+                    Some(expires_at) => { new_guard.expiring_keys.insert(new_key.clone(), expires_at); }
+                    None => { new_guard.expiring_keys.remove(&new_key); }
+                }
                 new_guard.data.insert(new_key.clone(), stored_value);
                 old_guard.mark_modified(old_key);
                 new_guard.mark_modified(&new_key);
